@@ -1238,7 +1238,7 @@ fn main() {
 
     eprintln!("[c25] probes done {:?}", t_start.elapsed());
     // ---- 2. signature pairs
-    let n_pairs = args.n(1500, 60000);
+    let n_pairs = args.n(1500, 20000);
     for i in 0..n_pairs {
         let mut r = rng.fork();
         let a = gen_text(&mut r);
@@ -1261,7 +1261,7 @@ fn main() {
 
     eprintln!("[c25] pairs done {:?}", t_start.elapsed());
     // ---- 3. table extraction
-    let n_tab = args.n(600, 20000);
+    let n_tab = args.n(600, 8000);
     for i in 0..n_tab {
         let mut r = rng.fork();
         let mut g = TGen { names: vec![], alias: 0 };
@@ -1285,14 +1285,14 @@ fn main() {
 
     eprintln!("[c25] tables done {:?}", t_start.elapsed());
     // ---- 4. raw cache traces
-    for _ in 0..args.n(400, 10000) {
+    for _ in 0..args.n(400, 4000) {
         let mut r = rng.fork();
         raw_trace(&mut r, &mut model, &mut rep);
     }
 
     eprintln!("[c25] raw traces done {:?}", t_start.elapsed());
     // ---- 5. histories
-    let n_hist = args.n(150, 2000);
+    let n_hist = args.n(150, 800);
     for i in 0..n_hist {
         // three of four histories stay inside the premise of the property (writes announced for
         // the table they change, base tables only); the others add views / cascades / rollbacks / DDL
